@@ -525,11 +525,18 @@ def V.isZero : V → Bool
   | .zero => true
   | _ => false
 
-partial def V.show : V → String
+mutual
+def V.show : V → String
   | .zero => "zero"
   | .leaf p none => p
-  | .leaf p (some k) => s!"{p}+f{k}"
-  | .elems es => "[" ++ ",".intercalate (es.map V.show) ++ "]"
+  | .leaf p (some k) => p ++ "+f" ++ toString k
+  | .elems es => "[" ++ V.showList es ++ "]"
+def V.showList : List V → String
+  | [] => ""
+  | v :: vs => match vs with
+    | [] => v.show
+    | _ => v.show ++ "," ++ V.showList vs
+end
 
 /-- the content of a reading-side leaf when the slots in `N` are nil (two elements per struct slice) -/
 def readLeaf (N : List String) (l : Leaf) : V :=
